@@ -5,7 +5,7 @@
 //
 // reader cmds: pre:<k> (ReadBytes k, discard)  prefill (VerifyFinished, result ignored)
 //              ReadVarU32 ReadVarI32 ReadVarU64 ReadVarI64 ReadFixed1 ReadFixed2 ReadFixed4 ReadFixed8
-//              ReadByte ReadBytes:<k> VerifyFinished  drain (ReadByte until an exception)
+//              ReadByte ReadBytes:<k> VerifyFinished  drain (ReadBytes(1) until an exception)
 // writer cmds: pre:<hex> (WriteBytes)  WriteVarU32:<v> WriteVarI32:<v> WriteVarU64:<v> WriteVarI64:<v>
 //              WriteFixed1:<v> .. WriteFixed8:<v> WriteByte:<v> WriteBytes:<hex> Flush
 // One output line per cmd ("ret ...", "throw <type>"); the writer prints "out <hex>" at the end.
@@ -116,9 +116,9 @@ static int reader(std::vector<std::string> const& a) {
       } else if (c == "drain") {
         std::string got;
         try {
-          for (int n = 0; n < 4096; n++) {
+          for (int n = 0; n < 512; n++) {  // cap: a corrupted reader (buffer_ptr_ > buffer_end_ptr_) never stops
             uint8_t v;
-            r.ReadByte(v);
+            r.ReadBytes(&v, 1);  // ReadBytes, not ReadByte: it re-checks the buffer after every refill
             got.push_back(static_cast<char>(v));
           }
         } catch (EndOfStreamException const&) {
